@@ -272,7 +272,7 @@ class C19(Prop):
                    'hostile packets are delimiter-terminated; an unterminated hostile packet legitimately garbles what follows on that connection',
                    'result order of several coroutine handlers of one event is not asserted',
                    'Manager._tasks of the simulated processes is an insertion-ordered double of the set (determinism of replays)')
-    budget = {'quick': (400, 4), 'thorough': (4000, 16)}
+    budget = {'quick': (400, 4), 'thorough': (12000, 16)}
 
     def setup(self):
         driver.quiet_process()
@@ -303,6 +303,11 @@ class C19(Prop):
                 out.append({'clients': 1, 'fw': {}, 'cuts': {'sizes': [i, 4096], 'burst': 0},
                             'waves': [{'sends': [ev(src, how)], 'forged': []}]})
         one = {'sizes': [4096], 'burst': 0}
+        # "args of any size": a few far larger than the read buffer (the packet arrives in hundreds of full reads)
+        for src, how in (('A0', 'client'), ('B', 'server')):
+            for n in ((70000, 1100000) if tier == 'quick' else (70000, 300000, 1100000, 2200000, 4300000)):
+                out.append({'clients': 1, 'fw': {}, 'cuts': one,
+                            'waves': [{'sends': [ev(src, how, args=['x', {'big': n}])], 'forged': []}]})
         # every metadata key x two hostile values, added in transit to a genuine call / to its answer, plain and coroutine handler
         for key in HOSTILE_KEYS:
             for val in ('HX', 666):
